@@ -736,10 +736,12 @@ func (x *Exec) evalComposite(e *ast.CompositeLit, st *State) *Value {
 				name := kv.Key.(*ast.Ident).Name
 				for j := 0; j < u.NumFields(); j++ {
 					if u.Field(j).Name() == name {
+						x.checkBigCopy(st, kv.Value)
 						v.Fs[j] = x.coerce(x.eval(kv.Value, st), u.Field(j).Type())
 					}
 				}
 			} else {
+				x.checkBigCopy(st, el)
 				v.Fs[i] = x.coerce(x.eval(el, st), u.Field(i).Type())
 			}
 		}
